@@ -1124,10 +1124,6 @@ theorem cpl_step (env : Env) (hround : ∀ b, env.decompress (env.compress b) = 
 
 /-! ## the sender's retransmission timers hold nothing but elements of `net` -/
 
-/-- a packet of the channel under study: reliable, of the substream, not of the handshake -/
-def relevant (sub : Nat) (p : Packet) : Bool :=
-  decide (p.substreamId = sub) && hasReliable p.flags && decide (p.type ≠ TYPE_SYN) && decide (p.type ≠ TYPE_CONNECT)
-
 /-- every packet of the channel that a retransmission timer of the sender holds was handed to the transport before -/
 def TimersOk (sub : Nat) (s : Sys) : Prop := ∀ p ∈ resendsOf s.a, relevant sub p = true → p ∈ s.net
 
@@ -1483,14 +1479,6 @@ end Nx.L1
 
 namespace Nx.L1
 open Nx Nx.Prudp Nx.Chan Nx.Crypto
-
-/-- `Established`, as a Bool (for closed witnesses) -/
-def establishedB (sub start : Nat) (a b : Conn) : Bool :=
-  decide (start < 65536) && (a.counters[sub]? == some start) &&
-  ((a.relCiphers[sub]?).map (·.encPos) == some 0) && ((b.relCiphers[sub]?).map (·.decPos) == some 0) &&
-  ((a.relCiphers[sub]?).map StreamCipher.key == (b.relCiphers[sub]?).map StreamCipher.key) && (b.cipherOn == a.cipherOn) &&
-  (b.windows[sub]? == some { next := start, packets := [] }) && (b.queues[sub]? == some []) && (b.fragBufs[sub]? == some []) &&
-  !b.eof && b.linkUp && (resendsOf a).all (fun p => !relevant sub p)
 
 theorem established_of_B (sub start : Nat) (a b : Conn) (h : establishedB sub start a b = true) : Established sub start a b := by
   unfold establishedB at h
